@@ -256,12 +256,23 @@ class RemoveComponent(FnContract):
             tgt = [z3.Bool('link_of_d%d_targets_%s' % (i, c2.fields['name'])) for c2 in everything]
             link.methods['__contains__'] = (lambda I, s, c, i=i, tgt=tgt: S.Or(next((f for u, f in zip(everything, dep[i]) if u is c), False),
                                                                               next((f for u, f in zip(everything, tgt) if u is c), False)))
+            # the target the link object itself names: usually the identifier it is registered under, but one expression object may be
+            # registered under two names, registered under a name of its own with an anonymous target, or target a stored attribute -
+            # decided by branching (own identifier, any other attribute, or an identifier outside the dataset)
+            def get_to_id(I, s, i=i):
+                cands = [derived[i]] + [u for u in everything if u is not derived[i]]
+                for j, u in enumerate(cands):
+                    if I.path.branch(z3.Bool('link_object_of_d%d_names_candidate_%d_as_target' % (i, j))):
+                        return u
+                return PObj('ComponentID', fields={'name': 'outside'})
+            link.methods['get_to_id'] = get_to_id
             comps[c] = PObj('DerivedComponent', fields={'link': link})
         events = []
         hub = PObj('Hub', methods={'broadcast': lambda I, s, m: events.append(m), '__bool__': lambda I, s: True}) if cfg['hub'] else None
         d = PObj('Data', fields={'_components': comps, 'hub': hub})
         d.methods['derived_components'] = ('__property__', lambda I, s: PList([c for c in derived if c in s.fields['_components']]))
         d.methods['get_component'] = lambda I, s, cid: s.fields['_components'][cid]
+        d.methods['derived_links'] = ('__property__', lambda I, s: PList([s.fields['_components'][c].fields['link'] for c in derived if c in s.fields['_components']]))
         ft_rc = FunctionText(DATA, 'Data.remove_component')
         ft_rd = FunctionText(DATA, 'Data._removed_derived_that_depend_on')
 
